@@ -419,3 +419,46 @@ pub open spec fn matrix_val(names: Seq<String>, conds: Formula, concl: Formula, 
     if names.len() == 0 { ht_sat(concl, w, m, s2) }
     else { (ht_sat(conds, w, m, s2) ==> ht_sat(concl, w, m, s2)) && (ht_sat(conds, World::There, m, s2) ==> ht_sat(concl, World::There, m, s2)) }
 }
+
+// ---- regular terms translate -------------------------------------------------------------------------------------------------
+pub proof fn lemma_reg1_p2f_int_some(t: asp::Term)
+    requires spec_reg1(t), !spec_sis(t),
+    ensures spec_p2f_int(t) is Some,
+    decreases t,
+{
+    match t {
+        asp::Term::UnaryOperation { op, arg } => { lemma_reg1_p2f_int_some(*arg); }
+        asp::Term::BinaryOperation { op, lhs, rhs } => { lemma_reg1_p2f_int_some(*lhs); lemma_reg1_p2f_int_some(*rhs); }
+        _ => {}
+    }
+}
+pub proof fn lemma_reg1_p2f_some(t: asp::Term, iv: Seq<String>)
+    requires spec_reg1(t),
+    ensures spec_p2f(t, iv) is Some,
+{
+    match t {
+        asp::Term::UnaryOperation { op, arg } => { lemma_reg1_p2f_int_some(*arg); }
+        asp::Term::BinaryOperation { op, lhs, rhs } => { lemma_reg1_p2f_int_some(*lhs); lemma_reg1_p2f_int_some(*rhs); }
+        _ => {}
+    }
+}
+/// all arguments regular of the first or second kind  ==>  head_regular
+pub proof fn lemma_head_regular(terms: Seq<asp::Term>, iv: Seq<String>)
+    requires forall|i: int| 0 <= i < terms.len() ==> #[trigger] spec_reg1(terms[i]) || spec_reg2(terms[i]),
+    ensures head_regular(terms, iv),
+{
+    assert forall|i: int| 0 <= i < terms.len() implies (#[trigger] spec_reg1(terms[i]) && spec_p2f(terms[i], iv) is Some)
+        || (spec_reg2(terms[i]) && spec_p2f(*terms[i]->BinaryOperation_lhs, iv) is Some && spec_p2f(*terms[i]->BinaryOperation_rhs, iv) is Some) by {
+        if spec_reg1(terms[i]) { lemma_reg1_p2f_some(terms[i], iv); }
+        else { lemma_reg1_p2f_some(*terms[i]->BinaryOperation_lhs, iv); lemma_reg1_p2f_some(*terms[i]->BinaryOperation_rhs, iv); }
+    }
+}
+
+/// the shape of a translated head (basic or choice)
+pub open spec fn nat_head_wit(hf: Formula, terms: Seq<asp::Term>, choice: bool, p: Seq<char>, iv: Seq<String>, names: Seq<String>, fs: Seq<Formula>, concl: Formula) -> bool {
+    head_regular(terms, iv) && head_names_ok(names, terms, terms.len() as int) && head_conds_ok(fs, terms, iv, names)
+        && concl_shape(concl, choice, p, head_args_seq(terms, iv, names)) && head_shape(hf, names, spec_conjoin(fs), concl)
+}
+pub open spec fn nat_head_shape(hf: Formula, terms: Seq<asp::Term>, choice: bool, p: Seq<char>, iv: Seq<String>) -> bool {
+    exists|names: Seq<String>, fs: Seq<Formula>, concl: Formula| #[trigger] nat_head_wit(hf, terms, choice, p, iv, names, fs, concl)
+}
